@@ -79,14 +79,26 @@ def gen_cases(rng, n):
         d = gen.random_device(rng)
         adv = i % 3 != 2
         nb = rng.choice([1, 1, 2, 3, 5])
+        def hdr(choices):
+            # one header in five sits on an RLP length boundary of its merge-mining payload
+            if rng.random() < 0.2:
+                return gen.boundary_header(rng, rng.choice(choices),
+                                           rng.choice([54, 55, 56, 57, 58, 255, 256, 257, 258]))
+            return gen.random_header(rng, rng.choice(choices))
         if adv:
-            hdrs = [gen.random_header(rng, rng.choice([19, 20])) for _ in range(nb)]
-            bros = [[gen.random_header(rng, rng.choice([19, 20])) for _ in range(rng.choice([0, 0, 1, 2, 4]))]
-                    for _ in range(nb)]
+            hdrs = [hdr([19, 20]) for _ in range(nb)]
+            bros = [[hdr([19, 20]) for _ in range(rng.choice([0, 0, 1, 2, 4]))] for _ in range(nb)]
+            for bl in bros:
+                # brothers sharing a block hash: the same header twice, or one differing only in
+                # the parts the hash does not cover (merkle proof, coinbase transaction)
+                if bl and rng.random() < 0.3:
+                    b0 = rng.choice(bl)
+                    bl.insert(rng.randrange(len(bl) + 1),
+                              b0 if rng.random() < 0.5 else gen.same_hash_variant(rng, b0))
             req = {"command": "advanceBlockchain", "version": 5, "blocks": [h.hex() for h in hdrs],
                    "brothers": [[b.hex() for b in bl] for bl in bros]}
         else:
-            hdrs = [gen.random_header(rng) for _ in range(nb)]
+            hdrs = [hdr([17, 18, 19, 20]) for _ in range(nb)]
             bros = None
             req = {"command": "updateAncestorBlock", "version": 5, "blocks": [h.hex() for h in hdrs]}
         plan = {}
